@@ -108,7 +108,8 @@ class _merge_u:
     """h.merge_bins(amount) for a 1-D histogram over ANY number (>= 1) of rising bins, gaps allowed: the new bins are the runs of
     `amount` adjacent old bins (the last run may be shorter), from the run's first left edge to its last right edge, with the
     run's summed content and squared error; totals and missed counts are conserved, the source is untouched and shares nothing
-    with the result; a gap inside a run is refused and nothing changes"""
+    with the result (in place: the histogram itself is re-binned); a gap inside a run or a non-integral amount is refused and
+    nothing changes"""
     probe = "quantifier-free"
     mbqi_first = True
 
@@ -120,18 +121,19 @@ class _merge_u:
     lemmas = lemmas_()
 
     def configs():
-        return [{"amount": a, "axis": ax} for a, ax in ((1, 0), (2, None), (2, 0), (3, None), (5, 0))]
+        return [{"amount": a, "axis": ax} for a, ax in ((1, 0), (2, None), (2, 0), (3, None), (5, 0))] + \
+               [{"amount": 2, "axis": 0, "inplace": True}, {"amount": 2.5, "axis": 0}, {"amount": 2.5, "axis": None, "inplace": True}]
 
     def inputs(b):
         _CFG["a"] = b.cfg.amount
         n = nbins(b)
         b.assume(n >= 1)
-        return dict(self=hist1d_t(b, "h", n, "int64"), amount=b.cfg.amount, axis=b.cfg.axis)
+        return dict(self=hist1d_t(b, "h", n, "int64"), amount=b.cfg.amount, axis=b.cfg.axis, inplace=getattr(b.cfg, "inplace", False))
 
     def invoke(I, fn, a, cfg):
         if I is not None:
-            return I.call(fn, [a.self, a.amount], {"axis": a.axis})
-        return fn(a.self, a.amount, axis=a.axis)
+            return I.call(fn, [a.self, a.amount], {"axis": a.axis, "inplace": a.inplace})
+        return fn(a.self, a.amount, axis=a.axis, inplace=a.inplace)
 
     def using(a, old, result):
         am = old.amount
@@ -165,6 +167,8 @@ class _merge_u:
 
     @ensures("the_source_is_untouched_and_shares_nothing")
     def _(a, old, result):
+        if old.inplace:
+            return result is a.self      # in place: the histogram itself is the result (the clauses above describe it)
         return And(same(Fq(old.self), Fq(a.self)), same(Eq(old.self), Eq(a.self)), same(elems(attr(old.self, "_missed")), elems(attr(a.self, "_missed"))),
                    same(attr(attr(old.self, "_binnings")[0], "_bins"), attr(attr(a.self, "_binnings")[0], "_bins")), result is not a.self,
                    attr(result, "_binnings")[0] is not attr(a.self, "_binnings")[0],
@@ -177,4 +181,6 @@ class _merge_u:
                                      same(elems(attr(old.self, "_missed")), elems(attr(a.self, "_missed"))),
                                      same(attr(attr(old.self, "_binnings")[0], "_bins"), attr(attr(a.self, "_binnings")[0], "_bins"))))
     def _(old):
+        if old.amount != int(old.amount):
+            return True                  # a non-integral amount is refused
         return _gap_inside_a_run(old.self, old.amount)
